@@ -59,9 +59,13 @@ var spellings = []spelling{
 	{"fullwidth", "%ef%bc%8e%ef%bc%8e/", "．．/"},
 	{"overlong", "%c0%ae%c0%ae/", "\xc0\xae\xc0\xae/"},
 	{"semicolon", "..;/", "..;/"},
+	// a character inside / next to the dots that a later normalisation step might delete (C0 controls, DEL)
+	{"ctl-inside", ".%01./", ".\x01./"},
+	{"ctl-after", "..%1f/", "..\x1f/"},
+	{"del-inside", ".%7f./", ".\x7f./"},
 }
 
-var quickSpellings = map[string]bool{"raw": true, "enc-all": true, "enc-slash": true, "double-enc": true, "dot-noise": true, "backslash": true, "nul": true, "fullwidth": true}
+var quickSpellings = map[string]bool{"raw": true, "enc-all": true, "enc-slash": true, "double-enc": true, "dot-noise": true, "backslash": true, "nul": true, "fullwidth": true, "ctl-inside": true}
 
 type world struct {
 	c        *ev.Ctx
